@@ -216,11 +216,11 @@ class Gauleg(Entry):
                 ns = list(range(nmax, 12, -1))
                 if q:   # quick: every other n (all n <= 12 are certified by the light entry; thorough: all);
                     #       paired large/small so that the shards of 2 are balanced
-                    ns = [n for n in ns if n in (21, 22, 24, 26, 28, 29, 30)]   # n <= 20: theorem C17_small_rules_exact
+                    ns = [n for n in ns if n in (13, 14, 16, 18, 20, 22, 24, 26, 28, 29, 30)]   # n <= 12: theorem C17_small_rules_exact
                     k = (len(ns) + 1) // 2
                     ns = [ns[i + j * k] for i in range(k) for j in range(2) if i + j * k < len(ns)]
                 else:   # thorough: all n <= 32, then samples up to 64 (128 moments)
-                    ns = [n for n in ns if 21 <= n <= 32 or n in (40, 48)]   # n <= 20: theorem C17_small_rules_exact
+                    ns = [n for n in ns if n <= 32 or n in (40, 48)]   # n <= 12: theorem C17_small_rules_exact too
                 for n in ns:
                     cs.append({"a": hx(-1.0), "b": hx(1.0), "n": n, "mom": 2 * n, "family": "moments 13..%d" % nmax})
         else:
@@ -1405,8 +1405,8 @@ def translation_step(ctx):
 
 def small_table_step(ctx):
     """C17_small_rules_exact is stated for the start values of SmallRules.cos_table: re-measure libm's cos at the
-    model's arguments for n = 1..20 and compare bit for bit with the table (inside Coq)."""
-    t = "[" + "; ".join("(%s, %s)" % (cz(n), ccos(n)) for n in range(1, 21)) + "]"
+    model's arguments for n = 1..12 and compare bit for bit with the table (inside Coq)."""
+    t = "[" + "; ".join("(%s, %s)" % (cz(n), ccos(n)) for n in range(1, 13)) + "]"
     try:
         vals = core.coq_eval(os.path.join(ctx.work, "smalltab"),
                              PRE + "From EsVerif.C17 Require Import SmallRules.\n", ["v_small_table cos_table %s" % t], tag="smalltab")
@@ -1414,7 +1414,7 @@ def small_table_step(ctx):
         detail = "" if ok else "verdict %r" % (vals,)
     except core.CoqEvalError as e:
         ok, detail = False, str(e)[-400:]
-    ctx.obligation("libm cos at the model's start-value arguments equals SmallRules.cos_table (n = 1..20): "
+    ctx.obligation("libm cos at the model's start-value arguments equals SmallRules.cos_table (n = 1..12): "
                    "C17_small_rules_exact applies to this machine", ok, detail)
     if not ok:
         ctx.violation("libm's cos differs from the start values C17_small_rules_exact is stated for (%s)" % detail,
